@@ -14,7 +14,7 @@ import random
 from . import tm
 from .driver import Accounting, Suspend, Task
 from .graph import build_paths, stream_replays
-from .instruments import Cancelled, InjectedError
+from .instruments import Cancelled, InjectedBaseError, InjectedError
 from .report import Verdict
 from .tlc import MachineryError, read_ndjson, run_tlc
 from .tracecheck import validate
@@ -28,7 +28,7 @@ class InjectedAttributeError(AttributeError):
     pass
 
 
-FAIL_KINDS = (InjectedError, InjectedKeyError, InjectedAttributeError)
+FAIL_KINDS = (InjectedError, InjectedKeyError, InjectedAttributeError, InjectedBaseError)
 
 
 class Broken(Exception):
